@@ -51,8 +51,14 @@ def generate(seed, run, tier):
         else:
             ops.append(['hold', r.choice([['NoneGridObject'], ['Key', r.choice(COLORS)], ['Box', ['Key', 'RED']], ['Wall']])])
         ops.append(['read', r.choice(['real', 'uniform', 'first', 'last', 'mixed']), r.randrange(2**31), r.random() < 0.4])
+    vis = None
+    if name in ('raytracing', 'partially_occluded', 'fully_transparent') and r.random() < 0.25:
+        # the same view through from_visibility with a visibility function built by its factory (soundness holds for any)
+        vis = {'name': name}
+        if name == 'raytracing' and r.random() < 0.7:
+            vis.update(r.choice([{'threshold': 2}, {'threshold': 3}, {'absolute_counts': False, 'threshold': 0.5}, {'absolute_counts': False, 'threshold': 1.0}, {'absolute_counts': True, 'threshold': 1}]))
     return {'property': PROP, 'seed': seed, 'run': run, 'tier': tier, 'debug': r.random() < 0.5, 'world': world,
-            'obs': {'name': name, 'area': area}, 'via_factory': r.random() < 0.5, 'ops': ops,
+            'obs': {'name': name, 'area': area}, 'vis': vis, 'via_factory': r.random() < 0.5, 'ops': ops,
             'alias_objects': stream(seed, PROP, run, 'alias').random() < 0.15}
 
 
@@ -63,7 +69,9 @@ def execute(record, ctx):
     from gvsim.lib import mk_obj
 
     name, area = record['obs']['name'], record['obs']['area']
-    obs_f = V.mk_obs_function(name, area, record['via_factory'])
+    obs_f = V.mk_obs_function(name, area, record['via_factory'], record.get('vis'))
+    if record.get('vis'):
+        ctx.probe('from_visibility_with_built_visibility_function')
     state = mk_state(record['world'])
     vh, vw = M.view_shape(area)
     env = None
